@@ -1,5 +1,5 @@
 #!/bin/bash
-# tools/replay_audit.sh [repo]: for one saved seed per property: apply it, run the quick check, take the first replay file with a concrete input,
+# tools/replay_audit.sh [repo] [seed-name ...]: for one saved seed per property (or the named seeds): apply it, run the quick check, take the first replay file with a concrete input,
 # re-run it with --replay on the seeded tree (must FAIL) and on the restored tree (must HOLD).  One line per property.
 cd "$(dirname "$0")/.."
 R=${1:-/repo}
@@ -7,18 +7,20 @@ export VERIF_REPO=$R
 if ! git -C "$R" diff --quiet; then echo "$R has local changes, refusing"; exit 2; fi
 bk=$(mktemp -d /tmp/pgaverif_evid.XXXXXX); cp -a evidence/. "$bk"/ 2>/dev/null
 trap 'git -C "$R" checkout -- . ; rm -rf evidence; mkdir -p evidence; cp -a "$bk"/. evidence/; rm -rf "$bk"; rm -f replays/*.json; python3 harness/gen_tables.py' EXIT
-for p in $(python3 -c "import json;print(' '.join(c['property_id'] for c in json.load(open('MANIFEST.json'))['checks']))"); do
-  d=$(ls -d seeded/$p-* | tail -1)
+shift
+if [ $# -gt 0 ]; then list="$*"; else list=$(python3 -c "import json;print(' '.join(c['property_id'] for c in json.load(open('MANIFEST.json'))['checks']))"); fi
+for it in $list; do
+  if [ -d "seeded/$it" ]; then d="seeded/$it"; p=$(python3 -c "import json;m=json.load(open('$d/meta.json'));print(m.get('run_check', m['breaks_property']))"); else p=$it; d=$(ls -d seeded/$p-* | tail -1); fi
   rm -f replays/*.json
   git -C "$R" apply "$(pwd)/$d/patch.diff" || { echo "$p: patch does not apply"; continue; }
   ./check $p quick > /dev/null 2>&1
   f=$(ls replays/$p-*.json 2>/dev/null | grep -v "proof\|crash\|timeout" | head -1)
   if [ -z "$f" ]; then echo "$p ($(basename $d)): no replay with a concrete input"; git -C "$R" checkout -- .; continue; fi
-  cp "$f" /tmp/replay_audit.json
-  a=$(./check $p --replay /tmp/replay_audit.json 2>&1 | grep -o "replay: property [A-Z]*" | tail -1)
+  cp "$f" /tmp/replay_audit.$$.json
+  a=$(./check $p --replay /tmp/replay_audit.$$.json 2>&1 | grep -o "replay: property [A-Z]*" | tail -1)
   git -C "$R" checkout -- .
-  b=$(./check $p --replay /tmp/replay_audit.json 2>&1 | grep -o "replay: property [A-Z]*" | tail -1)
-  key=$(python3 -c "import json;print(json.load(open('/tmp/replay_audit.json')).get('key'))")
+  b=$(./check $p --replay /tmp/replay_audit.$$.json 2>&1 | grep -o "replay: property [A-Z]*" | tail -1)
+  key=$(python3 -c "import json;print(json.load(open('/tmp/replay_audit.$$.json')).get('key'))")
   echo "$p ($(basename $d)) key=$key | seeded tree: ${a:-no verdict} | restored tree: ${b:-no verdict}"
 done
-rm -f /tmp/replay_audit.json
+rm -f /tmp/replay_audit.$$.json
